@@ -308,6 +308,7 @@ func LiveMPD(a *asset, mpdName string, cfg *ResponseConfig, drmCfg *drm.DrmConfi
 		if afterStop {
 			mpdDurS := *cfg.StopTimeS - cfg.StartTimeS
 			makeMPDStatic(mpd, mpdDurS)
+			mpd.PublishTime = m.ConvertToDateTimeS(int64(*cfg.StopTimeS)) // The MPD changed when the stream stopped
 			return mpd, nil
 		}
 		addPatchLocation(mpd, cfg)
@@ -330,6 +331,7 @@ func LiveMPD(a *asset, mpdName string, cfg *ResponseConfig, drmCfg *drm.DrmConfi
 	if afterStop {
 		mpdDurS := *cfg.StopTimeS - cfg.StartTimeS
 		makeMPDStatic(mpd, mpdDurS)
+		mpd.PublishTime = m.ConvertToDateTimeS(int64(*cfg.StopTimeS)) // The MPD changed when the stream stopped
 		return mpd, nil
 	}
 	addPatchLocation(mpd, cfg)
